@@ -33,9 +33,16 @@ CONSTANTS Epochs,      \* set of epoch numbers (1..9)
           Window,      \* GetEpochSizeMultipliedByRecommendedEpochNumToCollectPayment
           MaxRetries,  \* MaxPaymentRequestsRetiresForSession (3)
           MaxOps,
+          AtomicSave,  \* TRUE = saveProofInMemory as it is in the code: compare and store in ONE critical section
+                       \* (rws.lock held for the whole function).  FALSE = the check-then-act variant (compare
+                       \* under a read lock, store later under the write lock without re-checking) - kept in the
+                       \* spec so that TLC shows at design level why the single critical section is needed
+                       \* (RewardServer_split.cfg: KeepsBest is violated in 5 steps)
+          MaxCalls,    \* number of concurrent SendNewProof calls modelled step by step (0 = none)
           GenHist
 
 VARIABLES mem, failed, db,
+          calls,     \* in-flight SendNewProof calls: [1..MaxCalls -> [pc, k, cu]], pc in {"idle","check","store"}
           cur,       \* epoch of the last UpdateEpoch (0 = none yet)
           ear,       \* EarliestBlockInMemory currently answered by the node
           life,      \* process lifetime number
@@ -45,7 +52,7 @@ VARIABLES mem, failed, db,
           out,       \* observable result of the last action (answer / tx batches)
           nops, hist
 
-vars == <<mem, failed, db, cur, ear, life, subs, best, okd, out, nops, hist>>
+vars == <<mem, failed, db, calls, cur, ear, life, subs, best, okd, out, nops, hist>>
 
 Keys == {[e |-> e, c |-> p \div 10, s |-> p % 10] : e \in Epochs, p \in Sess}
 SessIds == {p % 10 : p \in Sess}
@@ -61,6 +68,47 @@ ValidForUse(e, thr) == e > thr
 Active(e) == cur < Window \/ ValidForUse(e, cur - Window)
 
 -----------------------------------------------------------------------------
+\* ---- concurrent SendNewProof calls, step by step ------------------------------------------------
+NoKey == [e |-> 0, c |-> 0, s |-> 0]
+IdleCall == [pc |-> "idle", k |-> NoKey, cu |-> 0]
+Quiescent == \A i \in DOMAIN calls : calls[i].pc = "idle"
+SaveResult(stored, cu) == IF stored = 0 \/ stored < cu THEN cu ELSE stored      \* compare + store of saveProofInMemory
+
+\* a relay handler calls SendNewProof: the proof counts as received from here on
+Begin(i, k, cu) ==
+  /\ calls[i].pc = "idle" /\ Active(k.e)
+  /\ calls' = [calls EXCEPT ![i] = [pc |-> "check", k |-> k, cu |-> cu]]
+  /\ best' = [best EXCEPT ![k] = IF cu > @ THEN cu ELSE @]
+  /\ out' = [NoOut EXCEPT !.ev = "begin"]
+  /\ Record([a |-> "begin", i |-> i, e |-> k.e, c |-> k.c, s |-> k.s, cu |-> cu])
+  /\ UNCHANGED <<mem, failed, db, cur, ear, life, subs, okd>>
+\* the code: the whole of saveProofInMemory under rws.lock
+SaveAtomic(i) ==
+  /\ AtomicSave /\ calls[i].pc = "check"
+  /\ mem' = [mem EXCEPT ![calls[i].k] = SaveResult(@, calls[i].cu)]
+  /\ calls' = [calls EXCEPT ![i] = IdleCall]
+  /\ out' = [NoOut EXCEPT !.ev = "save"]
+  /\ Record([a |-> "save", i |-> i])
+  /\ UNCHANGED <<failed, db, cur, ear, life, subs, best, okd>>
+\* the variant: compare under the read lock ...
+CheckStep(i) ==
+  /\ ~AtomicSave /\ calls[i].pc = "check"
+  /\ calls' = [calls EXCEPT ![i] = IF mem[calls[i].k] >= calls[i].cu THEN IdleCall ELSE [@ EXCEPT !.pc = "store"]]
+  /\ out' = [NoOut EXCEPT !.ev = "check"]
+  /\ Record([a |-> "check", i |-> i])
+  /\ UNCHANGED <<mem, failed, db, cur, ear, life, subs, best, okd>>
+\* ... and store under the write lock without looking again
+StoreStep(i) ==
+  /\ ~AtomicSave /\ calls[i].pc = "store"
+  /\ mem' = [mem EXCEPT ![calls[i].k] = calls[i].cu]
+  /\ calls' = [calls EXCEPT ![i] = IdleCall]
+  /\ out' = [NoOut EXCEPT !.ev = "store"]
+  /\ Record([a |-> "store", i |-> i])
+  /\ UNCHANGED <<failed, db, cur, ear, life, subs, best, okd>>
+\* what a burst of concurrent calls for one key must leave behind once all of them returned
+BurstKept(stored, cus) == LET all == cus \cup {stored} IN CHOOSE m \in all : \A x \in all : x <= m
+
+\* a SendNewProof call that does not overlap with another one
 Proof(k, cu) ==
   /\ Active(k.e)
   /\ LET stored == mem[k] IN
@@ -72,13 +120,13 @@ Proof(k, cu) ==
             /\ out' = [NoOut EXCEPT !.ev = "proof", !.existing = 0, !.updated = TRUE]
   /\ best' = [best EXCEPT ![k] = IF cu > @ THEN cu ELSE @]
   /\ Record([a |-> "proof", e |-> k.e, c |-> k.c, s |-> k.s, cu |-> cu])
-  /\ UNCHANGED <<failed, db, cur, ear, life, subs, okd>>
+  /\ UNCHANGED <<failed, db, calls, cur, ear, life, subs, okd>>
 
 Snap ==
   /\ db' = [k \in Keys |-> IF mem[k] > 0 THEN mem[k] ELSE db[k]]
   /\ out' = [NoOut EXCEPT !.ev = "snap"]
   /\ Record([a |-> "snap"])
-  /\ UNCHANGED <<mem, failed, cur, ear, life, subs, best, okd>>
+  /\ UNCHANGED <<mem, failed, calls, cur, ear, life, subs, best, okd>>
 
 \* updatePaymentRequestAttempt(batch, success) - batch is a sequence of proofs, folded in order.
 \* st = [failed, dbdel (keys deleted from the DB)]
@@ -104,6 +152,7 @@ Perms(S) == IF S = {} THEN {<<>>} ELSE UNION {{<<x>> \o q : q \in Perms(S \ {x})
 \* the claim part of one epoch update; newB / retryB are the batches in the order the code built them
 \* (Go map iteration order: any permutation), firstNew = which goroutine's result is recorded first
 Update(ncur, near, okNew, okRetry, newB, retryB, firstNew) ==
+  /\ Quiescent
   /\ ncur >= cur /\ near >= ear
   /\ ncur >= Window => near <= ncur - Window         \* chain memory is longer than the claim window
   /\ LET tooOldF == {s \in SessIds : failed[s].att > 0 /\ failed[s].e < near}
@@ -134,7 +183,7 @@ Update(ncur, near, okNew, okRetry, newB, retryB, firstNew) ==
         /\ out' = [NoOut EXCEPT !.ev = "update", !.txs = txs]
   /\ cur' = ncur /\ ear' = near
   /\ Record([a |-> "update", cur |-> ncur, ear |-> near, okNew |-> okNew, okRetry |-> okRetry])
-  /\ UNCHANGED <<life, best>>
+  /\ UNCHANGED <<life, best, calls>>
 
 \* PaymentHandler for a proof whose claim tx succeeded: DeleteClaimedRewards(epoch, client, sessionId, "")
 Paid(p) ==
@@ -142,10 +191,11 @@ Paid(p) ==
   /\ db' = [db EXCEPT ![KeyOf(p)] = 0]
   /\ out' = [NoOut EXCEPT !.ev = "paid"]
   /\ Record([a |-> "paid", e |-> p.e, c |-> p.c, s |-> p.s, cu |-> p.cu])
-  /\ UNCHANGED <<mem, failed, cur, ear, life, subs, best, okd>>
+  /\ UNCHANGED <<mem, failed, calls, cur, ear, life, subs, best, okd>>
 
 \* crash + new process on the same DB (AddDataBase -> restoreRewardsFromDB)
 Restart ==
+  /\ Quiescent
   /\ mem' = [k \in Keys |-> IF k.e < ear THEN 0 ELSE db[k]]
   /\ db' = [k \in Keys |-> IF db[k] > 0 /\ k.e < ear THEN 0 ELSE db[k]]   \* DeleteEpochRewards for too old epochs found in the DB
   /\ failed' = [s \in SessIds |-> NoFail]
@@ -155,12 +205,13 @@ Restart ==
   /\ okd' = {}
   /\ out' = [NoOut EXCEPT !.ev = "restart"]
   /\ Record([a |-> "restart"])
-  /\ UNCHANGED <<cur, ear>>
+  /\ UNCHANGED <<cur, ear, calls>>
 
 -----------------------------------------------------------------------------
 Proofs == {PF(k, cu) : k \in Keys, cu \in 1..MaxCu}
 Init == /\ mem = [k \in Keys |-> 0] /\ db = [k \in Keys |-> 0]
         /\ failed = [s \in SessIds |-> NoFail]
+        /\ calls = [i \in 1..MaxCalls |-> IdleCall]
         /\ cur = 0 /\ ear = 0 /\ life = 1
         /\ subs = [p \in Proofs |-> 0] /\ best = [k \in Keys |-> 0] /\ okd = {}
         /\ out = NoOut /\ nops = 0 /\ hist = <<>>
@@ -181,6 +232,8 @@ UpdateAny(ncur, near, okNew, okRetry) ==
 
 \* exhaustive runs: epochs advance one at a time; tx results only branch when a tx is sent
 Env == \/ \E k \in Keys, cu \in 1..MaxCu : Proof(k, cu)
+       \/ \E i \in 1..MaxCalls : \/ \E k \in Keys, cu \in 1..MaxCu : Begin(i, k, cu)
+                                \/ SaveAtomic(i) \/ CheckStep(i) \/ StoreStep(i)
        \/ Snap
        \/ \E ncur \in {cur + 1}, near \in {ear, ear + 1} :
             /\ ncur <= MaxEpoch + Window + 1
@@ -221,7 +274,7 @@ Emit == nops < MaxOps \/ PrintT(<<"BEH", ToJson(hist)>>)
 Sent == UNION {out.txs[i].proofs : i \in 1..Len(out.txs)}
 \* 1. a kept proof is the best received (this lifetime / restored), and what is submitted as a new
 \*    claim is that best proof
-KeepsBest == \A k \in Keys : mem[k] > 0 => mem[k] = best[k]
+KeepsBest == Quiescent => \A k \in Keys : mem[k] > 0 => mem[k] = best[k]
 SubmitsBest == out.ev = "update" =>
                  \A i \in 1..Len(out.txs) : out.txs[i].kind = "new" =>
                     \A p \in out.txs[i].proofs : p.cu = best[KeyOf(p)]
